@@ -203,7 +203,7 @@ def run(rep):
     rep.floor("R-C07-carry", 1 + 8 + 2)
     rep.floor("R-C07-gcd", 3 * 3 + 2)
     rep.floor("R-C07-conserve", 9 + 7)
-    rep.floor("R-C07-exact", 4)
+    rep.floor("R-C07-exact", 3)
     rep.floor("R-C10-restore", 11 + 6)
     rep.clause("R-C07-carry", "the fractional read position is carried between chunks (rebased by exactly the frames consumed) and the fixed-output input request follows it")
     rep.clause("R-C07-gcd", "with rate_in = g·a, rate_out = g·b the three FFT constructors give fft_size_in = chunks·a, fft_size_out = chunks·b with exact divisions, hence in·rate_out == out·rate_in; chunks is the exact ceiling division of the requested size; FftFixedInOut processes and reports exactly one block per call")
